@@ -100,6 +100,15 @@ func runC10(c *Ctx) {
 	}
 	L.Floor("draw-support", 20, "Intn and Perm sites of the randomised operations")
 	c.checkRandomFrame()
+	c.checkRateDomains("rate-domain", []rateSpec{
+		{"SimulateRogue", "prop", 0, 1, false}, {"SimulateRogue", "proplen", 0, 1, false},
+		{"Swap", "rate", 0, 1, false},
+		{"Recombine", "prop", 0, 0.5, false}, {"Recombine", "lenprop", 0, 1, false},
+		{"AddGaps", "prop", 0, 1, false}, {"AddGaps", "lenprop", 0, 1, false},
+		{"ShuffleSites", "rate", 0, 1, false}, {"ShuffleSites", "roguerate", 0, 1, false},
+		{"BuildBootstrap", "frac", 0, 1, true},
+	})
+	L.Floor("rate-domain", 10, "rate and proportion parameters of the randomised operations")
 	c.checkReplay()
 	// replay also needs the caller's inputs to be left as they were: a second call with the same
 	// seed must see the same counts map / alignment
